@@ -1,9 +1,318 @@
-"""Verus engine (filled in below): extraction of real items/slices, contract splicing, canaries."""
+"""Verus engine: templates under /verif/verus/*.rs.tmpl hold the hand-written part of a unit (spec
+functions, contracts, prelude stubs, lemmas); `//@item` / `//@slice` directives are replaced on every
+run by text extracted verbatim from /repo's working tree (lib/extract.py), with the contract clauses
+spliced in. The result is one single-file Verus crate per unit plus a canary copy (vacuity guard)."""
+import json
+import os
+import re
+import shlex
+
+import extract
+from common import GEN, REPO, VERIF, run, sha256_bytes
+
+TMPL_DIR = os.path.join(VERIF, "verus")
+OUT_DIR = os.path.join(GEN, "verus")
+KV_RE = re.compile(r'(\w+)=("([^"]*)"|\S+)')
+
+DEFINITE = (
+    "postcondition not satisfied", "precondition not satisfied", "assertion failed",
+    "invariant not satisfied", "possible arithmetic underflow/overflow", "possible division by zero",
+    "decreases not satisfied", "could not prove termination", "possible bit shift underflow/overflow",
+    "loop invariant not satisfied", "invariant not satisfied at end of loop body",
+    "invariant not satisfied before loop", "unreachable", "recommendation not met",
+    "constructed value may fail to meet its declared type invariant",
+)
+
+
+class VUnit:
+    def __init__(self, path, head):
+        self.path = path
+        self.id = head["id"]
+        self.props = head["props"].split(",")
+        self.fns = head.get("fns", "").split(",") if head.get("fns") else []
+        self.tier = "quick"
+        self.kind = "proof"
+        self.engine = "verus"
+        self.statement = head.get("statement", "")
+
+
+def kv(s):
+    return {k: (q if v.startswith('"') else v) for k, v, q in KV_RE.findall(s)}
 
 
 def load_units():
-    return []
+    units = []
+    if not os.path.isdir(TMPL_DIR):
+        return units
+    for f in sorted(os.listdir(TMPL_DIR)):
+        if not f.endswith(".rs.tmpl"):
+            continue
+        p = os.path.join(TMPL_DIR, f)
+        for line in open(p):
+            if line.startswith("//@unit"):
+                units.append(VUnit(p, kv(line[len("//@unit"):])))
+                break
+        else:
+            raise SystemExit(f"verus template {p} has no //@unit line")
+    return units
+
+
+def build(unit):
+    """Instantiate the template. Returns dict(text, extraction log, errors)."""
+    lines = open(unit.path).read().split("\n")
+    out = []
+    exlog = {"unit": unit.id, "items": [], "rules_applied": [], "dropped": []}
+    errors = []
+    i = 0
+    cache = {}
+
+    def load(rel):
+        if rel not in cache:
+            p = os.path.join(REPO, rel)
+            src = open(p).read()
+            cache[rel] = (src, extract.mask(src))
+        return cache[rel]
+
+    while i < len(lines):
+        line = lines[i]
+        st = line.strip()
+        if st.startswith("//@item") or st.startswith("//@slice"):
+            is_slice = st.startswith("//@slice")
+            d = kv(st)
+            clauses, sig, pre, post, drops = [], "", [], [], []
+            i += 1
+            while i < len(lines) and lines[i].strip() != "//@end":
+                l = lines[i].strip()
+                if l.startswith("//@|"):
+                    clauses.append("    " + l[4:].rstrip())
+                elif l.startswith("//@sig"):
+                    sig = l[len("//@sig"):].strip()
+                elif l.startswith("//@pre"):
+                    pre.append("    " + l[len("//@pre"):].strip())
+                elif l.startswith("//@post"):
+                    post.append("    " + l[len("//@post"):].strip())
+                elif l.startswith("//@drop"):
+                    drops.append(l[len("//@drop"):].strip())
+                elif l:
+                    errors.append(f"{unit.path}:{i+1}: unexpected line inside directive: {l}")
+                i += 1
+            i += 1  # skip //@end
+            try:
+                src, masked = load(d["file"])
+                if is_slice:
+                    s, e = extract.extract_slice(src, masked, d["fn"], d["start"], d["end"])
+                    body = src[s:e]
+                    where = f"{d['file']}:{extract.line_of(src, s)}-{extract.line_of(src, e)} slice of {d['fn']}"
+                    body = extract.transform(body, exlog["rules_applied"], where)
+                    body = extract.drop_statements(body, drops, exlog["dropped"], where)
+                    text = sig + "\n" + "\n".join(clauses) + ("\n" if clauses else "") + "{\n" + "\n".join(pre) + ("\n" if pre else "") + body.rstrip() + "\n" + "\n".join(post) + ("\n" if post else "") + "}\n"
+                    exlog["items"].append({"kind": "slice", "file": d["file"], "fn": d["fn"],
+                                           "lines": [extract.line_of(src, s), extract.line_of(src, e)],
+                                           "bytes": e - s, "sha256": sha256_bytes(src[s:e].encode())[:16]})
+                else:
+                    s, e, wpre, wsuf = extract.find_item(src, masked, d["path"])
+                    body = src[s:e]
+                    where = f"{d['file']}:{extract.line_of(src, s)}-{extract.line_of(src, e)} {d['path']}"
+                    body = extract.transform(body, exlog["rules_applied"], where)
+                    body = extract.drop_statements(body, drops, exlog["dropped"], where)
+                    if d.get("rename"):
+                        a, _, b = d["rename"].partition(":")
+                        # renaming the *item name only* (used when one item is instantiated twice)
+                        body = re.sub(r"\bfn\s+" + re.escape(a) + r"\b", "fn " + b, body, count=1)
+                    if clauses or d.get("ret"):
+                        body = extract.splice_contract(body, d.get("ret", ""), "\n".join(clauses))
+                    text = extract.transform(wpre, [], "") + body + wsuf
+                    exlog["items"].append({"kind": "item", "file": d["file"], "path": d["path"],
+                                           "lines": [extract.line_of(src, s), extract.line_of(src, e)],
+                                           "bytes": e - s, "sha256": sha256_bytes(src[s:e].encode())[:16]})
+                if e - s <= 0:
+                    errors.append(f"empty extraction for {d}")
+                out.append(text)
+            except (extract.ExtractError, FileNotFoundError, KeyError, ValueError) as ex:
+                errors.append(f"anchor lost: {ex}")
+            continue
+        if st.startswith("//@unit"):
+            i += 1
+            continue
+        out.append(line)
+        i += 1
+    return {"text": "\n".join(out) + "\n", "log": exlog, "errors": errors}
+
+
+FN_HEAD = re.compile(r"\b(?:(proof|spec|exec|open spec|closed spec)\s+)?fn\s+(\w+)")
+
+
+def make_canaries(text):
+    """Inject `assert(false)` at the start of every function that has a `requires` clause."""
+    m = extract.mask(text)
+    pieces, last, tags = [], 0, []
+    for fm in FN_HEAD.finditer(m):
+        if fm.group(1) and "spec" in fm.group(1):
+            continue
+        # header = from fn to body-open brace at paren depth 0
+        try:
+            k = m.index("(", fm.end())
+        except ValueError:
+            continue
+        pd, j = 0, k
+        while j < len(m):
+            ch = m[j]
+            if ch in "([":
+                pd += 1
+            elif ch in ")]":
+                pd -= 1
+            elif pd == 0 and ch == "{":
+                break
+            elif pd == 0 and ch == ";":
+                j = -1
+                break
+            j += 1
+        if j < 0 or j >= len(m):
+            continue
+        header = m[fm.start():j]
+        if not re.search(r"\brequires\b", header):
+            continue
+        tag = fm.group(2)
+        n = tags.count(tag)
+        tags.append(tag)
+        tagn = f"{tag}#{n}" if n else tag
+        is_proof = fm.group(1) == "proof"
+        inj = f" assert(false); /*canary:{tagn}*/" if is_proof else f" proof {{ assert(false); }} /*canary:{tagn}*/"
+        pieces.append(text[last:j + 1])
+        pieces.append(inj)
+        last = j + 1
+    pieces.append(text[last:])
+    uniq = []
+    seen = {}
+    for t in tags:
+        c = seen.get(t, 0)
+        seen[t] = c + 1
+        uniq.append(f"{t}#{c}" if c else t)
+    return "".join(pieces), uniq
+
+
+ERR_RE = re.compile(r"^(error|warning|note)(?:\[[^\]]*\])?: (.*)$")
+LOC_RE = re.compile(r"^\s*--> (.+?):(\d+):(\d+)")
+
+
+def parse_errors(stderr):
+    errs = []
+    cur = None
+    for line in stderr.split("\n"):
+        m = ERR_RE.match(line)
+        if m:
+            cur = {"level": m.group(1), "msg": m.group(2), "line": None}
+            if m.group(1) == "error":
+                errs.append(cur)
+            continue
+        m = LOC_RE.match(line)
+        if m and cur is not None and cur["line"] is None:
+            cur["line"] = int(m.group(2))
+    return [e for e in errs if not e["msg"].startswith("aborting due to")]
+
+
+def enclosing_fn(text, line_no):
+    lines = text.split("\n")
+    for k in range(min(line_no, len(lines)) - 1, -1, -1):
+        m = re.search(r"\bfn\s+(\w+)", lines[k])
+        if m and not lines[k].lstrip().startswith("//"):
+            return m.group(1)
+    return "?"
+
+
+def verus_run(path, rlimit=None):
+    cmd = ["verus", path, "--output-json", "--time", "--num-threads", "8", "--multiple-errors", "5"]
+    if rlimit:
+        cmd += ["--rlimit", str(rlimit)]
+    p_out = path + ".out.json"
+    p_err = path + ".err.txt"
+    sh = " ".join(shlex.quote(c) for c in cmd) + f" > {shlex.quote(p_out)} 2> {shlex.quote(p_err)}"
+    rc, _, wall = run(["bash", "-c", sh], cwd=os.path.dirname(path), timeout=1800)
+    try:
+        js = json.load(open(p_out))
+    except Exception:
+        js = {}
+    err = open(p_err).read() if os.path.exists(p_err) else ""
+    return rc, js, err, wall, " ".join(cmd)
 
 
 def run_units(units, tier, log=None):
-    return {}
+    records = {}
+    os.makedirs(OUT_DIR, exist_ok=True)
+    for u in units:
+        b = build(u)
+        rec = {"unit": u.id, "engine": "verus", "kind": "proof", "fns": u.fns, "file": "", "verdict": "undecided",
+               "reason": "", "checks": 0, "time_s": 0.0, "failed_checks": [], "raw": "", "extraction": b["log"],
+               "canaries": 0, "canaries_rejected": 0, "assumptions": [], "trusted": [], "statement": u.statement,
+               "bound": "", "known": ""}
+        records[u.id] = rec
+        if b["errors"]:
+            rec["reason"] = "; ".join(b["errors"])[:600]
+            continue
+        main_path = os.path.join(OUT_DIR, u.id.replace(".", "_") + ".rs")
+        can_path = os.path.join(OUT_DIR, u.id.replace(".", "_") + "_canary.rs")
+        open(main_path, "w").write(b["text"])
+        rec["file"] = main_path
+        # mechanical scan for assumptions
+        t = b["text"]
+        mt = extract.mask(t)
+        for mm in re.finditer(r"#\[verifier::external_body\]\s*(?:\w+\s+)*?(fn|struct|enum|type)\s+(\w+)", mt):
+            rec["trusted"].append(f"verus external_body {mm.group(1)} {mm.group(2)} ({u.id})")
+        for mm in re.finditer(r"assume_specification\s*(?:<[^>]*>)?\s*\[([^\]]+)\]", mt):
+            rec["trusted"].append(f"verus assume_specification [{' '.join(mm.group(1).split())}] ({u.id})")
+        n_assume = len(re.findall(r"\bassume\s*\(", mt)) + len(re.findall(r"\badmit\s*\(", mt))
+        if n_assume:
+            rec["trusted"].append(f"{n_assume} assume()/admit() statements in {u.id}")
+        for d in b["log"]["dropped"]:
+            rec["assumptions"].append(f"dropped statement does not write contract state: {d['dropped_statement']} ({d['where']})")
+        rc, js, err, wall, cmd = verus_run(main_path)
+        if log is not None:
+            log.append({"cmd": cmd, "rc": rc, "wall_s": round(wall, 1)})
+        vr = js.get("verification-results", {})
+        rec["time_s"] = js.get("times-ms", {}).get("total", wall * 1000) / 1000.0
+        errs = parse_errors(err)
+        if rc == 0 and vr.get("success") and vr.get("errors", 1) == 0:
+            n_ok = vr.get("verified", 0)
+            if n_ok < 1:
+                rec["reason"] = "zero functions verified (vacuous)"
+                continue
+            # canaries
+            ctext, tags = make_canaries(b["text"])
+            rec["canaries"] = len(tags)
+            if tags:
+                open(can_path, "w").write(ctext)
+                rc2, js2, err2, wall2, cmd2 = verus_run(can_path)
+                if log is not None:
+                    log.append({"cmd": cmd2, "rc": rc2, "wall_s": round(wall2, 1)})
+                clines = ctext.split("\n")
+                rejected = set()
+                for e in parse_errors(err2):
+                    if e["line"] and "assertion failed" in e["msg"]:
+                        cm = re.search(r"/\*canary:([^*]+)\*/", clines[e["line"] - 1])
+                        if cm:
+                            rejected.add(cm.group(1))
+                rec["canaries_rejected"] = len(rejected)
+                missing = [t for t in tags if t not in rejected]
+                if missing:
+                    rec["reason"] = f"vacuity guard: canary not rejected for {missing[:6]} (contradictory precondition or canary run failed)"
+                    rec["raw"] = err2[-3000:]
+                    continue
+            rec["verdict"] = "verified"
+            rec["checks"] = n_ok + rec["canaries_rejected"]
+            continue
+        # failure: definite verdict or not?
+        rec["raw"] = err[-6000:]
+        if not errs:
+            rec["reason"] = f"verus exited {rc} without a parsable error (tool failure/timeout)"
+            continue
+        definite = [e for e in errs if any(e["msg"].startswith(d) or d in e["msg"] for d in DEFINITE)]
+        other = [e for e in errs if e not in definite]
+        if other:
+            rec["reason"] = "outside the verifier's subset or resource limit: " + "; ".join(f"{e['msg']} (line {e['line']})" for e in other[:3])
+            continue
+        rec["verdict"] = "failed"
+        for e in definite:
+            fn = enclosing_fn(b["text"], e["line"] or 1)
+            rec["failed_checks"].append({"description": e["msg"], "location": f"{os.path.basename(main_path)}:{e['line']} in fn {fn}"})
+        rec["reason"] = "; ".join(f"{c['description']} [{c['location']}]" for c in rec["failed_checks"][:4])
+    return records
